@@ -192,6 +192,24 @@ fn gen_case(r: &mut Rng, _i: u64) -> Vec<String> {
         let mut edits: Vec<Edit> = vec![];
         let mut events: Vec<Ev> = vec![];
         let mut tries = 0;
+        if r.chance(1, 12) {
+            // a folder created together with its files: only Create(Folder) is delivered
+            let d = r.pick(DIRS).to_string();
+            if applicable(&t, &Edit::Mkdir(d.clone())) {
+                edits.push(Edit::Mkdir(d.clone()));
+                for name in [*r.pick(SOURCE_NAMES), *r.pick(OTHER_NAMES)].iter().take(r.range(1, 2)) {
+                    let p = format!("{d}/{name}");
+                    let c = content_for(r, &t, &p, pool.n_decls);
+                    edits.push(Edit::Write(p, c));
+                }
+                for e in &edits {
+                    apply(&mut t, e);
+                }
+                events.push(Ev::CreateFolder(d.clone()));
+                events.push(Ev::Access(d));
+                tries = 1000;
+            }
+        }
         while edits.len() < n_edits && tries < 40 {
             tries += 1;
             let Some(e) = gen_edit(r, &t, pool.n_decls) else { continue };
